@@ -18,7 +18,7 @@ import (
 // keys, floats by bit pattern, pointers are followed (with cycle detection).
 func Canon(v interface{}) string {
 	var sb strings.Builder
-	canonValue(&sb, reflect.ValueOf(v), map[uintptr]bool{}, false)
+	canonValue(&sb, reflect.ValueOf(v), map[uintptr]bool{}, false, 0)
 	return sb.String()
 }
 
@@ -27,7 +27,7 @@ func Canon(v interface{}) string {
 // and funcs are rendered by nil-ness.
 func Snapshot(v interface{}) string {
 	var sb strings.Builder
-	canonValue(&sb, reflect.ValueOf(v), map[uintptr]bool{}, true)
+	canonValue(&sb, reflect.ValueOf(v), map[uintptr]bool{}, true, 0)
 	return sb.String()
 }
 
@@ -36,7 +36,21 @@ func Digest(s string) string {
 	return hex.EncodeToString(h[:8])
 }
 
-func canonValue(sb *strings.Builder, v reflect.Value, seen map[uintptr]bool, snap bool) {
+func canonValue(sb *strings.Builder, v reflect.Value, seen map[uintptr]bool, snap bool, depth int) {
+	// depth guard: slices and maps can only refer to themselves when something has
+	// corrupted them; cut instead of recursing forever
+	if depth > 200 {
+		sb.WriteString("<deeper than 200 levels: cyclic value?>")
+		return
+	}
+	if sb.Len() > 1<<20 {
+		// a value that aliases itself (again: only after corruption) can render
+		// exponentially large; nothing legitimate in the simulator comes near 1 MiB
+		if sb.Len() < 1<<20+64 {
+			sb.WriteString("<rendering cut at 1 MiB>")
+		}
+		return
+	}
 	if !v.IsValid() {
 		sb.WriteString("nil")
 		return
@@ -47,7 +61,7 @@ func canonValue(sb *strings.Builder, v reflect.Value, seen map[uintptr]bool, sna
 			sb.WriteString("nil")
 			return
 		}
-		canonValue(sb, v.Elem(), seen, snap)
+		canonValue(sb, v.Elem(), seen, snap, depth+1)
 	case reflect.Ptr:
 		if v.IsNil() {
 			if snap {
@@ -78,7 +92,7 @@ func canonValue(sb *strings.Builder, v reflect.Value, seen map[uintptr]bool, sna
 		}
 		seen[p] = true
 		sb.WriteString("&")
-		canonValue(sb, v.Elem(), seen, snap)
+		canonValue(sb, v.Elem(), seen, snap, depth+1)
 		delete(seen, p)
 	case reflect.Bool:
 		sb.WriteString(strconv.FormatBool(v.Bool()))
@@ -103,7 +117,7 @@ func canonValue(sb *strings.Builder, v reflect.Value, seen map[uintptr]bool, sna
 			if i > 0 {
 				sb.WriteString(" ")
 			}
-			canonValue(sb, v.Index(i), seen, snap)
+			canonValue(sb, v.Index(i), seen, snap, depth+1)
 		}
 		sb.WriteString("]")
 		if snap && v.Kind() == reflect.Slice && v.Cap() > v.Len() {
@@ -114,7 +128,7 @@ func canonValue(sb *strings.Builder, v reflect.Value, seen map[uintptr]bool, sna
 				if i > v.Len() {
 					sb.WriteString(" ")
 				}
-				canonValue(sb, ext.Index(i), seen, snap)
+				canonValue(sb, ext.Index(i), seen, snap, depth+1)
 			}
 			sb.WriteString("]")
 		}
@@ -131,8 +145,8 @@ func canonValue(sb *strings.Builder, v reflect.Value, seen map[uintptr]bool, sna
 		iter := v.MapRange()
 		for iter.Next() {
 			var kb, vb strings.Builder
-			canonValue(&kb, iter.Key(), seen, snap)
-			canonValue(&vb, iter.Value(), seen, snap)
+			canonValue(&kb, iter.Key(), seen, snap, depth+1)
+			canonValue(&vb, iter.Value(), seen, snap, depth+1)
 			kvs = append(kvs, kv{kb.String(), vb.String()})
 		}
 		sort.Slice(kvs, func(i, j int) bool { return kvs[i].k < kvs[j].k })
@@ -161,7 +175,7 @@ func canonValue(sb *strings.Builder, v reflect.Value, seen map[uintptr]bool, sna
 			}
 			first = false
 			sb.WriteString(f.Name + ":")
-			canonValue(sb, v.Field(i), seen, snap)
+			canonValue(sb, v.Field(i), seen, snap, depth+1)
 		}
 		sb.WriteString("}")
 	case reflect.Func:
